@@ -1312,15 +1312,20 @@ class CSSMatch(_DocumentNav):
 
         return match
 
-    def match_dir(self, el: bs4.Tag | None, directionality: int) -> bool:
+    def match_dir(self, el: bs4.Tag | None, directionality: int, inherit: bool = False) -> bool:
         """Check directionality."""
 
         # If we have to match both left and right, we can't match either.
         if directionality & ct.SEL_DIR_LTR and directionality & ct.SEL_DIR_RTL:
             return False
 
-        if el is None or not self.is_html_tag(el):
+        if el is None:
             return False
+
+        if not self.is_html_tag(el):
+            # Only HTML elements match, but an HTML element nested in foreign content (e.g. under `foreignObject`)
+            # inherits its direction through its foreign ancestors.
+            return inherit and self.match_dir(self.get_parent(el, no_iframe=True), directionality, True)
 
         # Element has defined direction of left to right or right to left
         direction = DIR_MAP.get(util.lower(self.get_attribute_by_name(el, 'dir', '')), None)
@@ -1357,7 +1362,7 @@ class CSSMatch(_DocumentNav):
                 return ct.SEL_DIR_LTR == directionality
             elif is_root:
                 return ct.SEL_DIR_LTR == directionality
-            return self.match_dir(self.get_parent(el, no_iframe=True), directionality)
+            return self.match_dir(self.get_parent(el, no_iframe=True), directionality, True)
 
         # Auto handling for `bdi` and other non text inputs.
         if (is_bdi and direction is None) or direction == 0:
@@ -1366,10 +1371,10 @@ class CSSMatch(_DocumentNav):
                 return direction == directionality
             elif is_root:
                 return ct.SEL_DIR_LTR == directionality
-            return self.match_dir(self.get_parent(el, no_iframe=True), directionality)
+            return self.match_dir(self.get_parent(el, no_iframe=True), directionality, True)
 
         # Match parents direction
-        return self.match_dir(self.get_parent(el, no_iframe=True), directionality)
+        return self.match_dir(self.get_parent(el, no_iframe=True), directionality, True)
 
     def match_range(self, el: bs4.Tag, condition: int) -> bool:
         """
